@@ -397,7 +397,8 @@ impl<'a> Explorer<'a> {
 	pub fn run_prefix(&self, prefix: &[Ev]) -> (Live<'a>, Fp, Option<Outcome>) {
 		let dir = self.sc.fresh("x");
 		uni::copy_dir(&self.base, &dir);
-		let mut live = Live::open(self.tree, &dir, self.opts);
+		// (the model of the base directory: blocks a prelude has already delivered)
+		let mut live = Live::open_model(self.tree, &dir, self.opts, self.base_model.clone());
 		let mut before = Fp {
 			lines: Default::default(),
 		};
